@@ -34,9 +34,9 @@ func withParens(toks []model.Tok, lo, hi int) []model.Tok {
 }
 
 type c03State struct {
-	r        *harness.Run
-	docs     []interface{}
-	docsOnce sync.Once
+	r                                                                                            *harness.Run
+	docs                                                                                         []interface{}
+	docsOnce                                                                                     sync.Once
 	sentences, variants, preserved, changed, styleChecks, shapeOnly, shapeConfirmed, tokenChecks int64
 }
 
